@@ -39,6 +39,18 @@ def _pre(path):
     return _IMPL_RE.sub(lambda m: m.group(1) + '::', path)
 
 
+_BASE_NAMES = None
+
+
+def _baseline_names():
+    global _BASE_NAMES
+    if _BASE_NAMES is None:
+        import json
+        p_ = os.path.join(os.path.dirname(os.path.abspath(__file__)), 'baseline_functions.json')
+        _BASE_NAMES = set(json.load(open(p_))) if os.path.exists(p_) else set()
+    return _BASE_NAMES
+
+
 def set_moved_item_aliases(raw_bodies, raw_adts):
     """An item the rules name (`wire::cas_decide`, `bidir::copy_atomic`, `protocol::MessageType`) that was moved to another
     module or file of the crate (and re-exported, so callers compile unchanged) keeps the name the rules know: when the named
@@ -72,7 +84,9 @@ def set_moved_item_aliases(raw_bodies, raw_adts):
         if A in tops or A in adts or any(t.startswith(A + '::') for t in tops):
             continue
         segs = A.split('::')
-        if len(segs) >= 3 and segs[-2][:1].isupper():
+        if len(segs) == 2 and segs[0][:1].isupper() and not segs[1][:1].isupper() and A not in _baseline_names():
+            continue        # `Type::method` shorthand in a rule, not the path of an item at the crate root
+        if (len(segs) >= 3 and segs[-2][:1].isupper()) or (len(segs) == 2 and segs[0][:1].isupper() and not segs[1][:1].isupper()):
             # Type::method: the type moved - map the type (all its methods follow)
             key, old_item, is_type = '::'.join(segs[-2:]), '::'.join(segs[:-1]), True
         elif segs[-1][:1].isupper():
@@ -86,7 +100,9 @@ def set_moved_item_aliases(raw_bodies, raw_adts):
                 continue
             Q = cands[0]
         else:
-            cands = sorted({t for t in tops if t.split('::')[-1] == key and t != A and '::tests' not in t and not t.startswith('<') and '<' not in t})
+            # (a free function stays a free function: a method `Type::parse` is not the moved `mod::parse`)
+            cands = sorted({t for t in tops if t.split('::')[-1] == key and t != A and '::tests' not in t and not t.startswith('<') and '<' not in t
+                            and not (len(t.split('::')) >= 2 and t.split('::')[-2][:1].isupper())})
             if len(cands) != 1:
                 continue
             Q = cands[0]
